@@ -392,6 +392,12 @@ impl Sys {
     self.kbytes.push_back(frame(1, code, value));
     if self.noise >= 1 { self.kbytes.push_back(frame(0, 0, 0)); }                       // SYN_REPORT
     if self.noise >= 2 && value == 1 { self.kbytes.push_back(frame(1, code, 2)); self.kbytes.push_back(frame(0, 0, 0)); }  // auto-repeat
+    if self.noise >= 2 {
+      // records of other types whose value is 1 and whose code is some key's code: an LED going on, a wheel notch, scan code 1
+      self.kbytes.push_back(frame(0x11, 1, 1)); self.kbytes.push_back(frame(2, 8, 1)); self.kbytes.push_back(frame(4, 4, 1)); self.kbytes.push_back(frame(0, 0, 0));
+      // ... and a key record with a value that is neither press, release nor auto-repeat
+      self.kbytes.push_back(frame(1, code, 3));
+    }
   }
 
   fn read_k(&mut self, buf: *mut u8, count: usize) -> (isize, i32) {
